@@ -78,6 +78,7 @@ def _check_main(run, P):
              "initialisation code reach every component, allocate outside-in, release "
              "inside-out and nullify after release", minimum=12)
     _emitters(run, P)
+    _release_sites(run, P)
     _fresh(run, P)
     _allocatable(run, P)
     _exit(run, P)
@@ -628,6 +629,54 @@ def check(run, P):
     generic.lints(run, P, "C12")
 
 
+def _release_sites(run, P):
+    """(a) the last-use release is the last thing a statement handler emits;
+    (b) only the last-use release is suppressed inside loops - the helper that
+    also drops the old value of a move is not."""
+    from .util import path_conditions
+    G = P.cls(GEN)
+    n = 0
+    for name, m in sorted(G.methods.items()):
+        if not name.startswith("emit_inst_"):
+            continue
+        g = CFG(m.node)
+        rel = [nd for nd in g.nodes if nd.kind == "stmt" and nd.ast is not None and any(
+            isinstance(x, ast.Call) and dotted(x.func) == "self.emit_deinit_for_last_usage_of_vars"
+            for x in walk_fragment(nd.ast))]
+        if not rel:
+            continue
+        n += 1
+        after = g.reachable(rel, follow_exc=False)
+        later = [nd for nd in after if nd.kind == "stmt" and nd.ast is not None and nd not in rel and any(
+            isinstance(x, ast.Call) and (dotted(x.func) or "").startswith("self.emit")
+            for x in walk_fragment(nd.ast))]
+        run.ob("C12.lastuse", m, rel[0].ast, not later,
+               construct=f"{name}: nothing is emitted after the release at last use",
+               why="released before the statement's own code, a yielded temporary is freed "
+                   "and the return slot is then pointed at the released storage")
+    if n < 2:
+        raise AnalysisError("C12: statement handlers with a last-use release not found")
+    readers = sorted(m.name for m in G.methods.values() for x in ast.walk(m.node)
+                     if isinstance(x, ast.Attribute) and x.attr == "loop_nesting_depth"
+                     and isinstance(x.ctx, ast.Load)
+                     and not any(isinstance(a_, ast.AugAssign) and a_.target is x for a_ in ast.walk(m.node)))
+    ok = set(readers) <= {"emit_deinit_for_last_usage_of_vars"} and bool(readers)
+    run.ob("C12.lastuse", G, None, ok,
+           construct=f"the loop depth is consulted by {sorted(set(readers))} only",
+           why="emit_variable_deinit also emits 'drop the old value' for a move: suppressed "
+               "inside loops, a move in a loop body never releases its old target and "
+               "storage leaks once per iteration")
+    ed = P.method(G, "emit_variable_deinit")
+    rets = [r for r in ast.walk(ed.node) if isinstance(r, ast.Return) and r.value is None]
+    ok = True
+    for r in rets:
+        pc = path_conditions(ed.node, r)
+        ok = ok and pc <= {("isinstance(sym_kind, UserType)", False)} and bool(pc)
+    run.ob("C12.lastuse", ed, rets[0] if rets else ed.node, ok and bool(rets),
+           construct="emit_variable_deinit returns early only for kinds that are not user types",
+           why="any other reason to skip the release leaks")
+
+
 def _emitters(run, P):
     m = P.module("dagrt.codegen.fortran")
 
@@ -740,6 +789,20 @@ def _emitters(run, P):
            why="released before its inner blocks, the inner blocks are unreachable (leak) or "
                "reached through freed storage; not nullified, the next allocation check takes "
                "the dangling pointer for live storage")
+    from .util import path_conditions
+    for cname_, fn_ in (("AllocationEmitter", al), ("DeallocationEmitter", de)):
+        recs_ = [x for x in ast.walk(fn_.node) if isinstance(x, ast.Expr) and isinstance(x.value, ast.Call)
+                 and dotted(x.value.func) == "self.rec"]
+        ok_ = bool(recs_)
+        for r_ in recs_:
+            pc = path_conditions(fn_.node, r_)
+            ok_ = ok_ and any(v and t.endswith(".is_allocatable()") for t, v in pc) \
+                and not any("isinstance(" in t for t, v in pc)
+        run.ob("C12.emitters", fn_, recs_[0] if recs_ else fn_.node, ok_,
+               construct=f"{cname_}.visit_PointerType descends exactly when <pointee>.is_allocatable()",
+               why="a test on the class of the pointee misses what the other traversals reach: "
+                   "an array of structures with pointer members has its inner arrays "
+                   "allocated and never released")
     ie = cls("InitializationEmitter").methods["visit_PointerType"]
     g = CFG(ie.node)
     n_nodes = nodes_with(g, emits("nullify("))
